@@ -3,6 +3,7 @@ package c08
 import (
 	"testing"
 
+	_ "vh/gen/all"
 	"vh/vfrun"
 )
 
